@@ -8,6 +8,7 @@ import ModVerif.Model.Tlog
 import ModVerif.Spec.RFC6962
 import ModVerif.Proofs.TlogBasic
 import ModVerif.Proofs.TlogTH
+import ModVerif.Proofs.TlogCheck
 namespace ModVerif.Props.C03
 open ModVerif ModVerif.Tlog ModVerif.TlogTH
 
@@ -89,6 +90,87 @@ theorem checkTree_total (p : List H) (t n : Int) (th h : H) :
       by_cases hq : th2 = th ∧ h2' = h
       · left; simp [bind, Except.bind, pure, Except.pure, hq]
       · right; right; simp only [bind, Except.bind, if_neg hq]
+
+/-! ### acceptance is root recomputation along the RFC 6962 recursion, the proof consumed exactly -/
+
+/-- ★ `CheckRecord` accepts exactly the tuples whose audit path, folded along the RFC 6962 recursion for
+    (tree size, leaf index) with every proof hash consumed, reproduces the given root — for every size in
+    the int64 range.  (`RFC6962.AcceptIncl` is written without reference to the model.) -/
+theorem checkRecord_iff (p : List H) (t n : Int) (th h : H) (ht : t ≤ 2 ^ 63) :
+    checkRecord node p t th n h = .ok () ↔
+      0 ≤ t ∧ 0 ≤ n ∧ RFC6962.AcceptIncl node p t.toNat n.toNat h th := by
+  unfold checkRecord
+  split
+  · rename_i hg
+    have hg' : t < 0 ∨ n < 0 ∨ n ≥ t := by simpa [or_assoc] using hg
+    constructor
+    · intro hc; cases hc
+    · rintro ⟨h0, h1, h2, _⟩; omega
+  · rename_i hg
+    have hg' : ¬ (t < 0 ∨ n < 0 ∨ n ≥ t) := by simpa [or_assoc] using hg
+    have h2 : n.toNat < t.toNat := by omega
+    have h4 : t.toNat - 0 ≤ 2 ^ 63 := by omega
+    unfold runRecordProof
+    rw [runRecordProofF_eq_spec node (t.toNat - 0) p 0 t.toNat n.toNat h (Nat.zero_le _) h2 (Nat.le_refl _) h4]
+    simp only [Nat.sub_zero, RFC6962.AcceptIncl]
+    cases hr : RFC6962.inclRootF node t.toNat p t.toNat n.toNat h with
+    | none =>
+      simp only [ofRoot, bind, Except.bind]
+      constructor
+      · intro hc; cases hc
+      · rintro ⟨_, _, _, hc⟩; cases hc
+    | some r =>
+      simp only [ofRoot, bind, Except.bind]
+      by_cases hq : r = th
+      · subst hq
+        simp only [↓reduceIte, pure, Except.pure, true_iff]
+        exact ⟨by omega, by omega, h2, trivial⟩
+      · simp only [hq, ↓reduceIte]
+        constructor
+        · intro hc; cases hc
+        · rintro ⟨_, _, _, hc⟩; exact absurd (Option.some.inj hc) hq
+
+/-- ★ `CheckTree` accepts exactly the tuples whose consistency proof, folded along the RFC 6962 SUBPROOF
+    recursion with every proof hash consumed, reproduces BOTH the old root and the new root. -/
+theorem checkTree_iff (p : List H) (t n : Int) (th h : H) (ht : t ≤ 2 ^ 63) :
+    checkTree node p t th n h = .ok () ↔
+      0 ≤ t ∧ 0 ≤ n ∧ RFC6962.AcceptCons node p t.toNat n.toNat h th := by
+  unfold checkTree
+  split
+  · rename_i hg
+    have hg' : t < 1 ∨ n < 1 ∨ n > t := by simpa [or_assoc] using hg
+    constructor
+    · intro hc; cases hc
+    · rintro ⟨h0, h1, h2, h3, _⟩; omega
+  · rename_i hg
+    have hg' : ¬ (t < 1 ∨ n < 1 ∨ n > t) := by simpa [or_assoc] using hg
+    have h1 : 0 < n.toNat := by omega
+    have h2 : n.toNat ≤ t.toNat := by omega
+    have h4 : t.toNat - 0 ≤ 2 ^ 63 := by omega
+    unfold runTreeProof
+    rw [runTreeProofF_eq_spec node (t.toNat - 0) p 0 t.toNat n.toNat h h1 h2 (Nat.le_refl _) h4]
+    simp only [Nat.sub_zero, RFC6962.AcceptCons, beq_self_eq_true]
+    cases hr : RFC6962.consRootsF node t.toNat p t.toNat n.toNat true h with
+    | none =>
+      simp only [ofRoot, bind, Except.bind]
+      constructor
+      · intro hc; cases hc
+      · rintro ⟨_, _, _, _, hc⟩; cases hc
+    | some r =>
+      obtain ⟨o, nw⟩ := r
+      simp only [ofRoot, bind, Except.bind]
+      by_cases hq : nw = th ∧ o = h
+      · obtain ⟨hq1, hq2⟩ := hq
+        subst hq1; subst hq2
+        simp only [and_self, ↓reduceIte, pure, Except.pure, true_iff]
+        exact ⟨by omega, by omega, by omega, h2, trivial⟩
+      · simp only [hq, ↓reduceIte]
+        constructor
+        · intro hc; cases hc
+        · rintro ⟨_, _, _, _, hc⟩
+          have := Option.some.inj hc
+          simp only [Prod.mk.injEq] at this
+          exact absurd ⟨this.2, this.1⟩ hq
 
 end
 
